@@ -413,6 +413,24 @@ def atoms_text():
     emit("st_max", tp, I, R.assign_expr(b, "max", "="))
     emit("st_min_init", [], F, R.let_expr(b, "min"))
     emit("st_max_init", [], F, R.let_expr(b, "max"))
+    # --- automatic zoom levels: how many candidates, and the factor between them (bbiwrite.rs) -------------------------
+    bw = read("bigtools/src/bbi/bbiwrite.rs")
+    takes = []
+    for mt in re.finditer(r"\.take\(", bw):
+        depth, j = 1, mt.end()
+        while depth and j < len(bw):
+            depth += {"(": 1, ")": -1}.get(bw[j], 0)
+            j += 1
+        if "MAX_ZOOM_LEVELS" in bw[mt.end():j - 1]:
+            takes.append(bw[mt.end():j - 1])
+    if len(takes) != 2:
+        raise R.Unsupported("the two `.take(… MAX_ZOOM_LEVELS …)` of the automatic zoom levels not found")
+    for tag, t in zip(("single", "two"), takes):
+        emit(f"zl_count_{tag}", [("options_max_zooms", N), ("MAX_ZOOM_LEVELS", N)], N, R.parse_expr(t))
+    m = re.search(r"successors\(Some\(options\.initial_zoom_size\),\s*\|z\|\s*z\.checked_mul\((\d+)\)\)", bw)
+    if not m:
+        raise R.Unsupported("the successor rule of the automatic zoom sizes not found")
+    emit("zl_factor", [], N, ("int", m.group(1)))
     return ("/-! GENERATED by tools/extract_consts.py (tools/rs2lean.py) from /repo's working tree — do not edit.\n"
             "    The arithmetic and branch conditions of the zoom tilers, the coverage sweeps, the section cut and the\n"
             "    variable-step and fixed-step decoders, of FileView's read and seek, of the chromosome bisection and of the size-based chunker, each translated from the expression in the Rust source. -/\nnamespace Gen\n\n"
